@@ -28,6 +28,7 @@ type cliAdapter interface {
 	// datagram builds an incoming datagram.
 	datagram(kind, xid, typ, serial int, op uint8, htype uint8, padTo int) []byte
 	dest() net.Addr
+	setDest(sel int) // selects one of a few destination addresses (incl. zoned IPv6 ones) for the following calls
 	classify(err error) string
 }
 
@@ -44,14 +45,27 @@ const (
 	dgRelayType        // v6: relay-typed message
 	dgGarbage          // undecodable
 	dgEmpty            // zero-length read
+	// v4: hardware addresses that are not the client's, but related to it (v6 maps these to a foreign transaction id)
+	dgHWEmpty    // hlen 0, chaddr all zero
+	dgHWPrefix   // the first five octets of the client's address (hlen 5)
+	dgHWExtended // the client's address followed by two more octets (hlen 8)
+	dgHWLong     // the client's address padded to 16 octets (hlen 16)
 )
+
+// foreign reports whether kind is one of the "other hardware address" kinds.
+func dgForeignHW(kind int) bool {
+	return kind == dgWrongHW || kind == dgHWEmpty || kind == dgHWPrefix || kind == dgHWExtended || kind == dgHWLong
+}
 
 // ---- DHCPv4 ---------------------------------------------------------------------
 
 type v4Adapter struct {
-	c    *nclient4.Client
-	conn *netsim.Conn
+	c       *nclient4.Client
+	conn    *netsim.Conn
+	destSel int
 }
+
+func (a *v4Adapter) setDest(sel int) { a.destSel = sel }
 
 func (a *v4Adapter) name() string { return "nclient4" }
 func (a *v4Adapter) start(conn *netsim.Conn, timeout time.Duration, tries int, logDropped bool) error {
@@ -60,7 +74,17 @@ func (a *v4Adapter) start(conn *netsim.Conn, timeout time.Duration, tries int, l
 	return err
 }
 func (a *v4Adapter) close() error   { return a.c.Close() }
-func (a *v4Adapter) dest() net.Addr { return &net.UDPAddr{IP: net.IPv4(10, 9, 8, 7), Port: 6767} }
+func (a *v4Adapter) dest() net.Addr {
+	switch a.destSel % 4 {
+	case 1:
+		return &net.UDPAddr{IP: net.IPv4bcast, Port: 67}
+	case 2:
+		return &net.UDPAddr{IP: net.IP{192, 0, 2, 1}, Port: 67} // 4-byte form
+	case 3:
+		return &net.UDPAddr{IP: net.IPv4(10, 9, 8, 7), Port: 65535}
+	}
+	return &net.UDPAddr{IP: net.IPv4(10, 9, 8, 7), Port: 6767}
+}
 
 func (a *v4Adapter) request(xid int, variant int) (any, []byte) {
 	p, err := dhcpv4.NewDiscovery(cliHW, dhcpv4.WithTransactionID(xidBytes(xid)))
@@ -130,6 +154,14 @@ func (a *v4Adapter) datagram(kind, xid, typ, serial int, op uint8, htype uint8, 
 		p.TransactionID = [4]byte{0xEE, 0xEE, byte(xid), byte(serial)}
 	case dgWrongHW:
 		p.ClientHWAddr = net.HardwareAddr{0x02, 0x11, 0x22, 0x33, 0x44, 0x56}
+	case dgHWEmpty:
+		p.ClientHWAddr = nil
+	case dgHWPrefix:
+		p.ClientHWAddr = append(net.HardwareAddr{}, cliHW[:5]...)
+	case dgHWExtended:
+		p.ClientHWAddr = append(append(net.HardwareAddr{}, cliHW...), 0, 0)
+	case dgHWLong:
+		p.ClientHWAddr = append(append(net.HardwareAddr{}, cliHW...), make([]byte, 10)...)
 	case dgWrongOp:
 		p.OpCode = dhcpv4.OpcodeType(op)
 	case dgGarbage:
@@ -162,9 +194,12 @@ func (a *v4Adapter) classify(err error) string {
 // ---- DHCPv6 ---------------------------------------------------------------------
 
 type v6Adapter struct {
-	c    *nclient6.Client
-	conn *netsim.Conn
+	c       *nclient6.Client
+	conn    *netsim.Conn
+	destSel int
 }
+
+func (a *v6Adapter) setDest(sel int) { a.destSel = sel }
 
 func (a *v6Adapter) name() string { return "nclient6" }
 func (a *v6Adapter) start(conn *netsim.Conn, timeout time.Duration, tries int, logDropped bool) error {
@@ -177,7 +212,17 @@ func (a *v6Adapter) start(conn *netsim.Conn, timeout time.Duration, tries int, l
 	return err
 }
 func (a *v6Adapter) close() error   { return a.c.Close() }
-func (a *v6Adapter) dest() net.Addr { return &net.UDPAddr{IP: net.ParseIP("fe80::77"), Port: 5547} }
+func (a *v6Adapter) dest() net.Addr {
+	switch a.destSel % 4 {
+	case 1:
+		return &net.UDPAddr{IP: net.ParseIP("ff02::1:2"), Port: 547, Zone: "eth1"}
+	case 2:
+		return &net.UDPAddr{IP: net.ParseIP("fe80::1"), Port: 547, Zone: "2"}
+	case 3:
+		return &net.UDPAddr{IP: net.ParseIP("2001:db8::547"), Port: 1547}
+	}
+	return &net.UDPAddr{IP: net.ParseIP("fe80::77"), Port: 5547}
+}
 
 func xid6(i int) dhcpv6.TransactionID { return dhcpv6.TransactionID{0xB0, 0x20 + byte(i), byte(i * 5)} }
 
@@ -236,7 +281,7 @@ func (a *v6Adapter) datagram(kind, xid, typ, serial int, op uint8, htype uint8, 
 		m.AddOption(&dhcpv6.OptionGeneric{OptionCode: 65002, OptionData: make([]byte, rest)})
 	}
 	switch kind {
-	case dgWrongXid, dgWrongHW, dgWrongOp:
+	case dgWrongXid, dgWrongHW, dgWrongOp, dgHWEmpty, dgHWPrefix, dgHWExtended, dgHWLong:
 		m.TransactionID = dhcpv6.TransactionID{0xEE, byte(xid), byte(serial)}
 	case dgRelayType:
 		r, _ := dhcpv6.EncapsulateRelay(m, dhcpv6.MessageTypeRelayReply, net.ParseIP("fe80::1"), net.ParseIP("fe80::2"))
